@@ -123,6 +123,7 @@ PROPS = {
             {"name": "c07-regress", "pkg": COMPOSITE, "tests": ["TestVerifC07Regressions"]},
             {"name": "c07-exh", "pkg": COMPOSITE, "tests": ["TestVerifC07Exhaustive"], "timeout": {"quick": 900, "thorough": 3400},
              "shards": {"quick": 8, "thorough": 14}},
+            {"name": "c07-exh-deletes", "pkg": COMPOSITE, "tests": ["TestVerifC07ExhaustiveDeletes"], "tiers": ["thorough"], "timeout": {"thorough": 3400}, "shards": {"thorough": 14}},
             {"name": "c07-rand", "pkg": COMPOSITE, "tests": ["TestVerifC07Random"],
              "checks": {"quick": 2400, "thorough": 100000}, "shards": {"quick": 8, "thorough": 12}},
         ],
@@ -150,7 +151,7 @@ PROPS = {
             {"name": "c09-exh", "pkg": COMPOSITE, "tests": ["TestVerifC09Exhaustive"], "timeout": {"quick": 900, "thorough": 3400},
              "shards": {"quick": 12, "thorough": 14}},
             {"name": "c09-rand", "pkg": COMPOSITE, "tests": ["TestVerifC09Random"],
-             "checks": {"quick": 600, "thorough": 40000}, "shards": {"quick": 2, "thorough": 12}},
+             "checks": {"quick": 900, "thorough": 40000}, "shards": {"quick": 3, "thorough": 12}},
         ],
     },
     "C10": {
@@ -188,9 +189,9 @@ PROPS = {
             {"name": "c12-fixed-composite", "pkg": COMPOSITE, "tests": ["TestVerifC12FixedExhaustive"], "shards": {"quick": 8, "thorough": 8}, "timeout": {"quick": 900, "thorough": 3000}},
             {"name": "c12-fixed-decorator", "pkg": DECORATOR, "tests": ["TestVerifC12FixedExhaustive"], "shards": {"quick": 4, "thorough": 4}, "timeout": {"quick": 900, "thorough": 3000}},
             {"name": "c12-rand-composite", "pkg": COMPOSITE, "tests": ["TestVerifC12Random"],
-             "checks": {"quick": 800, "thorough": 60000}, "shards": {"quick": 2, "thorough": 8}},
+             "checks": {"quick": 800, "thorough": 40000}, "shards": {"quick": 2, "thorough": 8}},
             {"name": "c12-rand-decorator", "pkg": DECORATOR, "tests": ["TestVerifC12Random"],
-             "checks": {"quick": 400, "thorough": 30000}, "shards": {"quick": 1, "thorough": 4}},
+             "checks": {"quick": 400, "thorough": 20000}, "shards": {"quick": 1, "thorough": 4}},
         ],
     },
     "C13": {
@@ -260,9 +261,9 @@ PROPS = {
             {"name": "c17-fp-decorator", "pkg": DECORATOR, "tests": ["TestVerifC17Fingerprint"],
              "checks": {"quick": 800, "thorough": 40000}, "shards": {"quick": 3, "thorough": 4}},
             {"name": "c17-race-composite", "pkg": COMPOSITE, "race": True, "tests": ["TestVerifC17Race"],
-             "checks": {"quick": 48, "thorough": 2400}, "shards": {"quick": 3, "thorough": 8}, "timeout": {"quick": 900, "thorough": 3400}},
+             "checks": {"quick": 48, "thorough": 1600}, "shards": {"quick": 3, "thorough": 8}, "timeout": {"quick": 900, "thorough": 3400}},
             {"name": "c17-race-decorator", "pkg": DECORATOR, "race": True, "tests": ["TestVerifC17Race"],
-             "checks": {"quick": 24, "thorough": 1200}, "shards": {"quick": 2, "thorough": 4}, "timeout": {"quick": 900, "thorough": 3400}},
+             "checks": {"quick": 24, "thorough": 600}, "shards": {"quick": 2, "thorough": 4}, "timeout": {"quick": 900, "thorough": 3400}},
         ],
     },
     "C18": {
